@@ -1119,6 +1119,7 @@ def _dispatch():
 
 
 EXECUTOR = _dispatch()
+from contracts.C06_zip import EXECUTOR_KW  # noqa: E402,F401 -- which contracts run on pack C11's executor
 
 
 def post_report(c, rep):
